@@ -33,6 +33,9 @@ def install(it, log):
         if not p.obj.live or p.off != 0: raise G.MemError("delete[] of a freed pointer / not the start of an array")
         p.obj.live = False
     it.hooks["vp_new"] = h_new; it.hooks["vp_delete"] = h_delete; it._news = news
+    def h_swap(it_, a):
+        x = a[0].obj.cells[a[0].off]; a[0].obj.cells[a[0].off] = a[1].obj.cells[a[1].off]; a[1].obj.cells[a[1].off] = x
+    it.hooks["vp_swap"] = h_swap
     def chars(p, n=None):
         out = []; k = p.off
         while n is None or len(out) < n:
